@@ -142,7 +142,23 @@ def dup_lists():
     return out
 
 
-GRIDS = {"grid-awareness": awareness, "grid-oncetags": once_tags, "grid-clock": clock,
+def attempts():
+    """C06: attempt limits n in {1,2,3,255,256,257,258,300} (beyond CPython's small-integer cache) for a cyclic
+    job polled n+2 times, succeeding, failing or alternating; the job must run exactly n times"""
+    out = []
+    now = gen.day_us(2024, 2, 28) + 10 * HR
+    for n in (1, 2, 3, 255, 256, 257, 258, 300):
+        for outs in ([], [True] * n, [i % 2 == 0 for i in range(n)]):
+            c = core.default_cfg(max=n, outs=outs)
+            ops = [("INIT", None, 0, "linear", now, []), ("CALL", ("SCHED", c), [])]
+            for i in range(1, n + 3):
+                ops += [("NOW", now + i * SEC), ("EXEC", False, None)]
+            ops.append(("CALL", ("JOBS",), []))
+            out.append(ops)
+    return out
+
+
+GRIDS = {"grid-attempts": attempts, "grid-awareness": awareness, "grid-oncetags": once_tags, "grid-clock": clock,
          "grid-clockdaily": lambda: clock((1, 2, 3)), "grid-weekly": lambda: clock((4,)), "grid-dup": dup_lists}
 _cache = {}
 
